@@ -1652,6 +1652,12 @@ pub fn run(a: &Args) {
         for n in [2usize, 4] {
             let steps = crate::c03srv::corpus(&ctx, n);
             crate::c03srv::run_steps(&mut out, &mut pend, &ctx, n, "corpus", &steps).await;
+            // … and as ONE pipeline on ONE connection through the real connection handler (hook H1),
+            // under three read segmentations / partial-write scripts / batching configurations
+            let frames = crate::c03srv::corpus_pipeline(&ctx, n);
+            for salt in 0..3u64 {
+                crate::c03srv::run_conn(&mut out, &mut pend, &ctx, &mut Rng::new(0xC0 + salt), n, &frames).await;
+            }
         }
         for n in [4usize] {
             for (label, steps) in crate::c03m7::after_deadline(&ctx, n) {
@@ -1689,6 +1695,11 @@ pub fn run(a: &Args) {
                 random_case(&ctx, &mut r)
             };
             run_case(&mut out, &mut pend, &ctx, &c).await;
+            if r.chance(1, 8) {
+                let n = *r.pick(&[2usize, 3, 4, 8, 16]);
+                let frames = crate::c03srv::random_pipeline(&ctx, &mut r, n);
+                crate::c03srv::run_conn(&mut out, &mut pend, &ctx, &mut r, n, &frames).await;
+            }
             if r.chance(1, 6) {
                 let n = *r.pick(&[2usize, 3, 4, 8, 16]);
                 let steps = crate::c03srv::random_steps(&ctx, &mut r, n);
@@ -1762,5 +1773,5 @@ pub fn run(a: &Args) {
  "11 harness fragility": "CLOSED: routing probe no longer relies on RENAME; predictor unavailability reported; OPEN: a panic inside the harness' own tasks aborts the run (reported by check as harness exit)",
  "monotone time hypothesis": "shard_count_unobservable_timed assumes non-decreasing virtual time. The real system CAN violate it per shard: get_current_virtual_time() is read before the message is enqueued, so two concurrent clients can enqueue stamps out of order (and a wall clock can step back); the model covers this (setTime with a smaller now), the correspondence exercises it (timed:nonmonotone-clock) and agrees. It is not a defect: a single client's command sequence (the property's quantifier) has monotone stamps; with concurrent clients a stale-stamped message overlaps the deadline in real time and either answer is linearizable; evicted keys never come back because eviction is permanent"
 }"####).unwrap());
-    out.finish("class srv: command FRAMES (~110 templates: every command of the composed model with option/case variants, frames the parser rejects, commands outside the model) as RESP bytes through the real RespCodec::parse → Command::from_resp_zero_copy → execute / pooled_fast_* / fast_batch_*_pipeline → connection encoders on 1 and N shards against Server.handle (reply bytes + dump); class m7: timed streams (8..36 steps over 5 keys) of the WHOLE M7 command set (redisx generators of C01 minus GETSET / SPOP / RANDOMKEY / non-UTF-8 members) + 4 multi-call Lua scripts + TTL ticks + dumps through the real execute() on 1 and N ∈ {2,3,4,8,16} shards against Shards.M7.execNT7code, plus the fixed per-command after-deadline corpus; otherwise: case = one command sequence (8..40 ops over 3..9 keys; corpus cases up to 80 ops) run on real ShardedActorState instances with 1 and N ∈ {2,3,4,8,16} shards and on the model: single-key string/list commands, MGET/MSET/DEL/EXISTS fan-out, KEYS/DBSIZE/FLUSH, fast/pooled/batch byte paths (incl. non-UTF-8 keys), two-key commands, MSETNX, SCAN, RANDOMKEY; KEYS / SCAN MATCH patterns of every shape (literal only for an existing / a missing key, `*`, `?`, classes, negated classes, ranges, degenerate ranges, unterminated `[`, empty classes, mixed) over keyspaces of 8..45 keys spread over the shards; plus timed streams (SET [PX|EX], GET, EXISTS, DBSIZE, MGET/MSET, fast/pooled GET/SET, fast_batch_get/set_pipeline with the simulated clock advanced between commands: random streams, and the structured pattern `deadline; clock just before / at / just past / far past it; traffic for other shards only or none; read through one path` for every read path — distribution under timed:path=…; non-trivial iff a TTL is set, time passes and something is read); distinct by shard count + op text; non-trivial iff its keys live on ≥ 2 shards and it contains a fan-out, byte-path or two-key command");
+    out.finish("class srvc: pipelines of 3..40 answered, time-free frames on ONE connection through the REAL OptimizedConnectionHandler (hook H1: generated read segmentation incl. byte by byte, generated partial-write sizes, generated min_pipeline_buffer / batch_threshold / read_size) over a real 1- and N-shard ShardedActorState, written byte stream (decoded, canonicalised per frame, re-encoded) + dump against Server.run (Props/ServerConn node_end_to_end); class srv: command FRAMES (~110 templates: every command of the composed model with option/case variants, frames the parser rejects, commands outside the model) as RESP bytes through the real RespCodec::parse → Command::from_resp_zero_copy → execute / pooled_fast_* / fast_batch_*_pipeline → connection encoders on 1 and N shards against Server.handle (reply bytes + dump); class m7: timed streams (8..36 steps over 5 keys) of the WHOLE M7 command set (redisx generators of C01 minus GETSET / SPOP / RANDOMKEY / non-UTF-8 members) + 4 multi-call Lua scripts + TTL ticks + dumps through the real execute() on 1 and N ∈ {2,3,4,8,16} shards against Shards.M7.execNT7code, plus the fixed per-command after-deadline corpus; otherwise: case = one command sequence (8..40 ops over 3..9 keys; corpus cases up to 80 ops) run on real ShardedActorState instances with 1 and N ∈ {2,3,4,8,16} shards and on the model: single-key string/list commands, MGET/MSET/DEL/EXISTS fan-out, KEYS/DBSIZE/FLUSH, fast/pooled/batch byte paths (incl. non-UTF-8 keys), two-key commands, MSETNX, SCAN, RANDOMKEY; KEYS / SCAN MATCH patterns of every shape (literal only for an existing / a missing key, `*`, `?`, classes, negated classes, ranges, degenerate ranges, unterminated `[`, empty classes, mixed) over keyspaces of 8..45 keys spread over the shards; plus timed streams (SET [PX|EX], GET, EXISTS, DBSIZE, MGET/MSET, fast/pooled GET/SET, fast_batch_get/set_pipeline with the simulated clock advanced between commands: random streams, and the structured pattern `deadline; clock just before / at / just past / far past it; traffic for other shards only or none; read through one path` for every read path — distribution under timed:path=…; non-trivial iff a TTL is set, time passes and something is read); distinct by shard count + op text; non-trivial iff its keys live on ≥ 2 shards and it contains a fan-out, byte-path or two-key command");
 }
